@@ -658,4 +658,48 @@ class IndexMatch(Sub):
         return out
 
 
-SUBS = [Choose(), IndexGrid(), IndexVector(), MatchExact(), MatchSorted(), IndexMatch()]
+PRIMERS = ['ABS(2.0)+ABS(1.0)+ABS(3.0)+ABS(4.0)', 'INT(8/2)+INT(6/2)+INT(4/2)+INT(2/2)', 'ROUND(2.0,0)+SQRT(1.0)+3.0+4.0',
+           'SUM(1.0,2.0,3.0,4.0)&TRUE&FALSE', 'INDEX({5,6,7,8},4/2)', 'POWER(2.0,1.0)+LOG(4.0,2.0)']
+
+
+class AfterFloatUse(Sub):
+    name = 'c18.after_float_use'
+    rule = ('two-step histories in a fresh process: first a formula that sends whole-valued FLOATS (1.0 .. 4.0, TRUE) '
+            'through the numeric helpers, then every integer position 1..4 in INDEX (flat, grid, with MATCH) and CHOOSE: the '
+            'integer lookups must still address the same elements (a memo keyed by == / hash conflates 2 and 2.0); '
+            'non-trivial = all')
+    min_cases = 6
+    min_nontrivial = 6
+
+    def cases(self, tier, unit):
+        for i in range(len(PRIMERS)):
+            yield [i]
+
+    def check(self, env, case):
+        env.nt()
+        p = env.new_parser()
+        flat = [101, 102, 103, 104]
+        tflat = ['t1', 't2', 't3', 't4']
+        g = grid('n', 4, 4)
+        p.set_variable('arr', flat)
+        p.set_variable('tarr', tflat)
+        p.set_variable('grd', g)
+        env.evals += 1
+        p.parse(PRIMERS[case[0]])
+        for k in (1, 2, 3, 4):
+            p.set_variable('xk', k)
+            probes = [('INDEX(arr,%d)' % k, flat[k - 1]), ('INDEX(arr,xk)', flat[k - 1]), ('INDEX(tarr,%d)' % k, tflat[k - 1]),
+                      ('INDEX(grd,%d,1)' % k, g[k - 1][0]), ('INDEX(grd,2,xk)', g[1][k - 1]),
+                      ('INDEX({11,12,13,14},%d)' % k, 10 + k), ('CHOOSE(%d,"a","b","c","d")' % k, 'abcd'[k - 1]),
+                      ('CHOOSE(xk,11,12,13,14)', 10 + k), ('INDEX(arr,MATCH(%d,arr,0))' % flat[k - 1], flat[k - 1]),
+                      ('MATCH(%d,{1,2,3,4},0)' % k, k)]
+            for f, want in probes:
+                env.evals += 1
+                o = env.out(p.parse(f))
+                if not (o[0] == 'v' and same(o[1], want)):
+                    return fail('after evaluating %r in a fresh process, %s%s = %r; expected %r' % (
+                        PRIMERS[case[0]], f, ' with xk=%d' % k if 'xk' in f else '', o, want), ['v', want], o)
+        return None
+
+
+SUBS = [Choose(), IndexGrid(), IndexVector(), MatchExact(), MatchSorted(), IndexMatch(), AfterFloatUse()]
